@@ -53,7 +53,24 @@ import (
 // UTF-8 value, and the empty string (multi-valued fields only: an empty
 // single-valued field IS the default).
 var V = []string{"A", "a b", "é", "a@b.c", "*.x", "#1", "a,b", strings.Repeat("x", 64), " lead",
-	"&", "_", "'()+-/:=?", "*", "@", strings.Repeat("x", 128), "日本", "😀", ""}
+	"&", "_", "'()+-/:=?", "*", "@", strings.Repeat("x", 128), "日本", "😀", "",
+	// indices 18..: the rune part of the alphabet, built by rule instead of by example. For each UTF-8
+	// length class (2, 3, 4 octets) one rune whose LOW BYTE (rune & 0xff) is a PrintableString character
+	// and one whose low byte is not — an encoder that classifies a rune by anything less than the whole
+	// rune picks the wrong string type for one of them — alone and mixed with ASCII, plus the Latin-1
+	// boundary runes U+0080, U+00FF, U+0100.
+	"\u0141",       // 18: 'Ł' 2 octets, low byte 0x41 'A'
+	"\u03a3",       // 19: 'Σ' 2 octets, low byte 0xa3
+	"\u4e2d",       // 20: '中' 3 octets, low byte 0x2d '-'
+	"\u263a",       // 21: '☺' 3 octets, low byte 0x3a ':'
+	"\u65e5",       // 22: '日' 3 octets, low byte 0xe5
+	"\U0001f441",   // 23: 4 octets, low byte 0x41 'A'
+	"\u0141ask",    // 24: "Łask"
+	"smile \u263a", // 25
+	"\u0080",       // 26: first rune beyond ASCII
+	"\u00ff",       // 27: last Latin-1 rune
+	"\u0100",       // 28: low byte 0x00
+}
 
 // invalidUTF8 is outside the statement's domain ("printable, UTF-8 and
 // special-character values"): the encoder is documented (Go encoding/asn1 and
@@ -128,32 +145,36 @@ type alt struct {
 	Extra []xatv
 	Core  bool // member of the reduced alternative set (quick tier, 3 non-default fields)
 	Full  bool // member of the two-element set used by the item with ALL fields non-default
+	Solo  bool // quick tier: enumerated alone (one non-default field) and not in the 2-field products (thorough: everywhere)
 	Bad   bool // holds invalidUTF8
 }
 
 func multiAlts() []alt {
 	var out []alt
+	// quick tier: of the values added by the strengthening, "*", 128 x, "😀" and "" also take part in
+	// the 2-field products; the others (and their pairs / duplicates) are enumerated with one non-default field.
+	pair2 := func(i int) bool { return i < 9 || i == 12 || i == 14 || i == 16 || i == 17 || i == 18 || i == 23 }
 	for i, v := range V {
-		out = append(out, alt{Vals: []string{v}, Core: i == 0 || i == 2 || i == 4 || i == 8, Full: i == 2})
+		out = append(out, alt{Vals: []string{v}, Core: i == 0 || i == 2 || i == 4 || i == 8, Full: i == 2, Solo: !pair2(i)})
 	}
 	for i := range V { // two different values; half of them are permuted by the DER SET-OF sort
-		out = append(out, alt{Vals: []string{V[(i+1)%len(V)], V[i]}, Core: i == 0 || i == 2 || i == 7})
+		out = append(out, alt{Vals: []string{V[(i+1)%len(V)], V[i]}, Core: i == 0 || i == 2 || i == 7, Solo: i >= 8})
 	}
 	for i, v := range V { // duplicate value inside one RDN
-		out = append(out, alt{Vals: []string{v, v}, Core: i == 5 || i == 7})
+		out = append(out, alt{Vals: []string{v, v}, Core: i == 5 || i == 7, Solo: i >= 9})
 	}
 	// three values, prefix-related pairs ("a" is a prefix of "ab"): the DER SET OF
 	// sort compares the ENCODINGS (length octet first), i.e. a, b, ab — neither
 	// the given order nor the lexical order of the values.
 	out = append(out,
-		alt{Vals: []string{"b", "a", "ab"}, Core: true, Full: true},
-		alt{Vals: []string{"ab", "b", "a"}},
-		alt{Vals: []string{"a", "ab", "b"}},
-		alt{Vals: []string{"a", "ab", "a"}},
-		alt{Vals: []string{"é", "e", "éa"}}, // PrintableString and UTF8String elements in one SET
-		alt{Vals: []string{}},               // empty, non-nil slice: nothing is emitted
+		alt{Vals: []string{"b", "a", "ab"}, Full: true},
+		alt{Vals: []string{"ab", "b", "a"}, Solo: true},
+		alt{Vals: []string{"a", "ab", "b"}, Solo: true},
+		alt{Vals: []string{"a", "ab", "a"}, Solo: true},
+		alt{Vals: []string{"é", "e", "éa"}, Solo: true}, // PrintableString and UTF8String elements in one SET
+		alt{Vals: []string{}},                           // empty, non-nil slice: nothing is emitted
 		alt{Vals: []string{invalidUTF8}, Bad: true},
-		alt{Vals: []string{"a", invalidUTF8}, Bad: true},
+		alt{Vals: []string{"a", invalidUTF8}, Bad: true, Solo: true},
 	)
 	return out
 }
@@ -164,7 +185,7 @@ func singleAlts() []alt {
 		if v == "" {
 			continue // the default of a single-valued field
 		}
-		out = append(out, alt{Vals: []string{v}, Core: i == 0 || i == 2 || i == 4 || i == 7 || i == 8, Full: i == 0 || i == 15})
+		out = append(out, alt{Vals: []string{v}, Core: i == 0 || i == 2 || i == 4 || i == 7 || i == 8, Full: i == 0 || i == 15, Solo: i >= 9 && i != 12 && i != 14 && i != 16 && i != 18 && i != 23})
 	}
 	out = append(out, alt{Vals: []string{invalidUTF8}, Bad: true})
 	return out
@@ -173,13 +194,13 @@ func singleAlts() []alt {
 func extraAlts() []alt {
 	var out []alt
 	for i, v := range V {
-		out = append(out, alt{Extra: []xatv{{oidUnknown, v}}, Core: i == 0 || i == 2, Full: i == 2})
+		out = append(out, alt{Extra: []xatv{{oidUnknown, v}}, Core: i == 0 || i == 2, Full: i == 2, Solo: i >= 9})
 	}
 	for i, v := range V { // duplicates the multi-valued field Organization
-		out = append(out, alt{Extra: []xatv{{oidO, v}}, Core: i == 2 || i == 0})
+		out = append(out, alt{Extra: []xatv{{oidO, v}}, Core: i == 2 || i == 0, Solo: i >= 9 && i != 17})
 	}
 	for i, v := range V { // duplicates the single-valued field CommonName
-		out = append(out, alt{Extra: []xatv{{oidCN, v}}, Core: i == 1 || i == 2})
+		out = append(out, alt{Extra: []xatv{{oidCN, v}}, Core: i == 1 || i == 2, Solo: i >= 9 && i != 17})
 	}
 	out = append(out,
 		alt{Extra: []xatv{{oidSerial, "A"}}},
@@ -1532,117 +1553,7 @@ func main() {
 			"strings that are not valid UTF-8 are outside the domain: Marshal refusing them (documented: 'asn1: string not valid UTF-8') is accepted, so is a faithful round trip",
 			"T61String/GeneralString: octets as they are or ISO 8859-1 are both accepted (statement silent); BMPString ending in 0000: with or without that terminator (zcrypto documents stripping it); BMPString with surrogate code units and ill-formed Universal strings are not judged")
 
-		// ---------------- direction 1
-		nf := len(d.ef)
-		maxD := 3
-		const (
-			selAll  = 0
-			selCore = 1
-			selFull = 2
-		)
-		type item struct {
-			fs   []int
-			core int // which alternatives: selAll, selCore, selFull
-		}
-		var items []item
-		items = append(items, item{nil, selAll})
-		for a := 0; a < nf; a++ {
-			items = append(items, item{[]int{a}, selAll})
-			for b := a + 1; b < nf; b++ {
-				items = append(items, item{[]int{a, b}, selAll})
-				for e := b + 1; e < nf; e++ {
-					items = append(items, item{[]int{a, b, e}, ev.Pick(c, selCore, selAll)})
-				}
-			}
-		}
-		// ALL 16 enumerated fields non-default at once, two alternatives each (2^16 names);
-		// split on the first two fields into 4 work items.
-		for a0 := 0; a0 < 4; a0++ {
-			all := make([]int, nf)
-			for i := range all {
-				all[i] = i
-			}
-			items = append(items, item{all, selFull + a0})
-		}
-		altIdx := func(f int, sel int) []int {
-			var out []int
-			for i, a := range d.ef[f].alts {
-				switch {
-				case sel == selAll, sel == selCore && a.Core, sel >= selFull && a.Full:
-					out = append(out, i)
-				}
-			}
-			if sel >= selFull {
-				if len(out) != 2 {
-					panic("field without exactly two Full alternatives")
-				}
-				if f < 2 { // the work item fixes the alternative of the first two fields
-					out = out[((sel-selFull)>>f)&1:][:1]
-				}
-			}
-			return out
-		}
-		var total int64
-		perD := map[int]int64{}
-		for _, it := range items {
-			n := int64(1)
-			for _, f := range it.fs {
-				n *= int64(len(altIdx(f, it.core)))
-			}
-			total += n
-			perD[len(it.fs)] += n
-		}
-		altDesc := map[string]any{}
-		for f, e := range d.ef {
-			name := "ExtraNames"
-			if e.idx != extraField {
-				name = fields[e.idx].name
-			}
-			altDesc[name] = map[string]int{"all": len(altIdx(f, selAll)), "core": len(altIdx(f, selCore)), "all_fields_item": 2}
-		}
-		c.Set("d1_alternatives", altDesc)
-		c.Set("d1_value_alphabet", V)
-		c.Set("d1_names_planned", map[string]any{"total": total, "by_non_default_fields": perD, "three_fields_use_core_alternatives_only": c.Quick()})
-		c.Set("d1_max_non_default_fields", fmt.Sprintf("%d with every alternative (3: core alternatives in quick), plus all %d fields at once with two alternatives each", maxD, nf))
-
-		done := c.Parallel(len(items), func(wk, i int) {
-			it := items[i]
-			h := ev.Hist{}
-			idx := make([][]int, len(it.fs))
-			for k, f := range it.fs {
-				idx[k] = altIdx(f, it.core)
-			}
-			ch := make([]choice, len(it.fs))
-			var rec func(k int) bool
-			cnt := 0
-			rec = func(k int) bool {
-				if k == len(it.fs) {
-					cnt++
-					if cnt&1023 == 0 && c.TimeUp() {
-						return false
-					}
-					d.run(append([]choice(nil), ch...), h, c, rep)
-					return true
-				}
-				for _, a := range idx[k] {
-					ch[k] = choice{it.fs[k], a}
-					if !rec(k + 1) {
-						return false
-					}
-				}
-				return true
-			}
-			if !rec(0) {
-				c.Incomplete("D1: budget hit inside a field combination")
-			}
-			c.Merge(h)
-		})
-		if !done {
-			c.Incomplete("D1: budget hit before all field combinations were enumerated")
-		}
-		d.flush(c)
-
-		// ---------------- direction 2
+		// ---------------- direction 2 (first: it is the smaller part, so a budget hit on a loaded machine cuts D1, never all of D2)
 		type job func(emit func([]byte))
 		var jobs []job
 		var planned int64
@@ -1708,7 +1619,7 @@ func main() {
 		}
 		c.Set("d2_names_planned", map[string]any{"total": planned, "one_attribute_oid_x_value_type": nSingles,
 			"oids": len(d2OIDs), "value_types": len(d2Vals), "rdn_forms_le2_attrs": len(f2), "rdn_forms_in_3rdn_sequences": len(fs), "rdn_forms_le3_attrs": len(f3)})
-		done = c.Parallel(len(jobs), func(wk, i int) {
+		done := c.Parallel(len(jobs), func(wk, i int) {
 			h := ev.Hist{}
 			stop := false
 			jobs[i](func(der []byte) {
@@ -1727,5 +1638,117 @@ func main() {
 		if !done {
 			c.Incomplete("D2: budget hit before all harness-built names were evaluated")
 		}
+
+		// ---------------- direction 1
+		nf := len(d.ef)
+		maxD := 3
+		const (
+			selAll  = 0
+			selCore = 1
+			selPair = 2 // all alternatives that are not Solo
+			selFull = 3 // +0..3
+		)
+		type item struct {
+			fs   []int
+			core int // which alternatives: selAll, selCore, selFull
+		}
+		var items []item
+		items = append(items, item{nil, selAll})
+		for a := 0; a < nf; a++ {
+			items = append(items, item{[]int{a}, selAll})
+			for b := a + 1; b < nf; b++ {
+				items = append(items, item{[]int{a, b}, ev.Pick(c, selPair, selAll)})
+				for e := b + 1; e < nf; e++ {
+					items = append(items, item{[]int{a, b, e}, ev.Pick(c, selCore, selAll)})
+				}
+			}
+		}
+		// ALL 16 enumerated fields non-default at once, two alternatives each (2^16 names);
+		// split on the first two fields into 4 work items.
+		for a0 := 0; a0 < 4; a0++ {
+			all := make([]int, nf)
+			for i := range all {
+				all[i] = i
+			}
+			items = append(items, item{all, selFull + a0})
+		}
+		altIdx := func(f int, sel int) []int {
+			var out []int
+			for i, a := range d.ef[f].alts {
+				switch {
+				case sel == selAll, sel == selCore && a.Core, sel == selPair && !a.Solo, sel >= selFull && a.Full:
+					out = append(out, i)
+				}
+			}
+			if sel >= selFull {
+				if len(out) != 2 {
+					panic("field without exactly two Full alternatives")
+				}
+				if f < 2 { // the work item fixes the alternative of the first two fields
+					out = out[((sel-selFull)>>f)&1:][:1]
+				}
+			}
+			return out
+		}
+		var total int64
+		perD := map[int]int64{}
+		for _, it := range items {
+			n := int64(1)
+			for _, f := range it.fs {
+				n *= int64(len(altIdx(f, it.core)))
+			}
+			total += n
+			perD[len(it.fs)] += n
+		}
+		altDesc := map[string]any{}
+		for f, e := range d.ef {
+			name := "ExtraNames"
+			if e.idx != extraField {
+				name = fields[e.idx].name
+			}
+			altDesc[name] = map[string]int{"all": len(altIdx(f, selAll)), "in_2_field_products": len(altIdx(f, ev.Pick(c, selPair, selAll))), "core": len(altIdx(f, selCore)), "all_fields_item": 2}
+		}
+		c.Set("d1_alternatives", altDesc)
+		c.Set("d1_value_alphabet", V)
+		c.Set("d1_names_planned", map[string]any{"total": total, "by_non_default_fields": perD, "three_fields_use_core_alternatives_only": c.Quick(), "two_fields_leave_out_solo_alternatives": c.Quick()})
+		c.Set("d1_max_non_default_fields", fmt.Sprintf("%d with every alternative (3: core alternatives in quick), plus all %d fields at once with two alternatives each", maxD, nf))
+
+		done = c.Parallel(len(items), func(wk, i int) {
+			it := items[i]
+			h := ev.Hist{}
+			idx := make([][]int, len(it.fs))
+			for k, f := range it.fs {
+				idx[k] = altIdx(f, it.core)
+			}
+			ch := make([]choice, len(it.fs))
+			var rec func(k int) bool
+			cnt := 0
+			rec = func(k int) bool {
+				if k == len(it.fs) {
+					cnt++
+					if cnt&1023 == 0 && c.TimeUp() {
+						return false
+					}
+					d.run(append([]choice(nil), ch...), h, c, rep)
+					return true
+				}
+				for _, a := range idx[k] {
+					ch[k] = choice{it.fs[k], a}
+					if !rec(k + 1) {
+						return false
+					}
+				}
+				return true
+			}
+			if !rec(0) {
+				c.Incomplete("D1: budget hit inside a field combination")
+			}
+			c.Merge(h)
+		})
+		if !done {
+			c.Incomplete("D1: budget hit before all field combinations were enumerated")
+		}
+		d.flush(c)
+
 	})
 }
